@@ -556,6 +556,24 @@ type niCtxFact struct {
 	Fn       *engine.Fn
 	Imported bool
 	loc      map[types.Object]types.Object
+	args     map[types.Object]ast.Expr // helper parameter -> argument expression at the (outermost) call
+	argFn    *engine.Fn                // function whose variables the argument expressions use
+}
+
+// ArgOf returns, for an identifier of c.Fn that is a parameter of the helper,
+// the argument expression passed for it (in ArgFn's variables); nil otherwise.
+func (c niCtxFact) ArgOf(e ast.Expr) (ast.Expr, *engine.Fn) {
+	if !c.Imported || c.args == nil {
+		return nil, nil
+	}
+	id, ok := ast.Unparen(e).(*ast.Ident)
+	if !ok {
+		return nil, nil
+	}
+	if a := c.args[c.Fn.Info().ObjectOf(id)]; a != nil {
+		return a, c.argFn
+	}
+	return nil, nil
 }
 
 // Loc returns the object of c.Fn that stands for the analysed function's
@@ -721,7 +739,16 @@ func niFactsDeep(f *engine.Fn, target *engine.Site, depth int) []niCtxFact {
 		if len(rets) == 0 {
 			continue
 		}
+		if wantNil && !niOtherReturnsFail(h, idx, rets) {
+			continue // some other return may also yield nil: the facts would not be guaranteed
+		}
 		pm := niParamMap(f, cs.Call, h)
+		argExprs := map[types.Object]ast.Expr{}
+		for i, a := range cs.Call.Args {
+			if po := paramObj(h, i); po != nil {
+				argExprs[po] = a
+			}
+		}
 		bound := niAssignedFromCall(f, cs)
 		// facts per return, keyed for intersection
 		type keyed struct {
@@ -745,6 +772,9 @@ func niFactsDeep(f *engine.Fn, target *engine.Site, depth int) []niCtxFact {
 			}
 			for _, in := range niFactsDeep(h, r, depth-1) {
 				nc := niCtxFact{niFact: in.niFact, Fn: in.Fn, Imported: true, loc: map[types.Object]types.Object{}}
+				if !in.Imported {
+					nc.args, nc.argFn = argExprs, f
+				}
 				for k, v := range loc {
 					if in.Imported {
 						if vv := in.loc[v]; vv != nil {
@@ -886,4 +916,89 @@ func niDeepChecked(f *engine.Fn, d engine.DeepSite, target *engine.Site) (bool, 
 		}
 	}
 	return true, "checked (through " + h.Name + ")"
+}
+
+// niOtherReturnsFail: every return of h outside rets yields, for result idx, a
+// value that is certainly non-nil: a composite literal / &T{}, a call of an
+// error constructor (package "errors" of any path, fmt.Errorf), a package-level
+// error variable, or a local known to be != nil at that return.
+func niOtherReturnsFail(h *engine.Fn, idx int, rets []*engine.Site) bool {
+	info := h.Info()
+	isSucc := map[*engine.Site]bool{}
+	for _, r := range rets {
+		isSucc[r] = true
+	}
+	for _, r := range niReturns(h) {
+		skip := false
+		for s := range isSucc {
+			if s.Node == r.Node {
+				skip = true
+			}
+		}
+		if skip {
+			continue
+		}
+		rs := r.Node.(*ast.ReturnStmt)
+		if idx >= len(rs.Results) {
+			return false
+		}
+		e := ast.Unparen(rs.Results[idx])
+		switch x := e.(type) {
+		case *ast.CompositeLit:
+			continue
+		case *ast.UnaryExpr:
+			if x.Op == token.AND {
+				continue
+			}
+			return false
+		case *ast.CallExpr:
+			n := niCallee(info, x)
+			if n == "fmt.Errorf" || strings.Contains(n, "errors.") {
+				continue
+			}
+			return false
+		case *ast.Ident:
+			o := info.ObjectOf(x)
+			if v, ok := o.(*types.Var); ok && v.Parent() == v.Pkg().Scope() {
+				continue // package-level sentinel
+			}
+			nonNil := false
+			for _, ft := range niFacts(h.Graph(), r) {
+				if cmp, ok := niAsCmp(ft); ok && cmp.Op == token.NEQ && engine.ObjOf(info, cmp.X) == o && isNil(cmp.Y) {
+					nonNil = true
+				}
+			}
+			if nonNil {
+				continue
+			}
+			return false
+		default:
+			return false
+		}
+	}
+	return true
+}
+
+// niPrivateCalledOnlyFrom: fn is an unexported function all of whose references
+// are calls from functions whose root is in allowed (or, recursively, such helpers).
+func niPrivateCalledOnlyFrom(p *engine.Prog, fn *engine.Fn, allowed []string, depth int) bool {
+	root := fn.Root()
+	for _, a := range allowed {
+		if root.Name == a {
+			return true
+		}
+	}
+	if depth <= 0 || root.Obj == nil || root.Obj.Exported() {
+		return false
+	}
+	sites, complete := c49CallersOf(p, root)
+	if !complete || len(sites) == 0 {
+		return false
+	}
+	for _, cs := range sites {
+		if !niPrivateCalledOnlyFrom(p, cs.Fn, allowed, depth-1) {
+			return false
+		}
+	}
+	return true
 }
